@@ -8,3 +8,14 @@ claim("C05",
       "an independent layout oracle judges the implementation's outputs and supplies replays.",
       "Lean 4 proof (omega over literal powers of two, 28-way resolution split, list induction for hex) + generated tables + differential model/impl correspondence",
       "DESIGN.md section 6 C05")
+claim("C06",
+      "[full] tables_unchanged: every table and constant regenerated from the current Rust source by the translator (PATTERN/PATTERN_FLIPPED, flips and KJ tables, "
+      "orientation sets, quintant layouts, QUINTANT_FIRST, ORIGIN_ORDER, QUATERNIONS, LONGITUDE_OFFSET, all of constants.rs, authalic coefficients, thresholds, probe count/scale, "
+      "memo layout, cell-area table ...; 90 items, floats by IEEE bit pattern and exact dyadic value) equals the frozen tables of the reference release - a kernel-checked equality per item, "
+      "re-checked on every run against what the code says now. The model bodies are frozen against v0.6.2(+fix commits) and the bit-exact correspondence on the golden requests is the comparison "
+      "of function bodies with the reference semantics (translation validation). [search] replay of a frozen golden table generated once from the pinned release: 13.6k ids -> centre+corners "
+      "(every face x quintant x resolution) and 51k (lon,lat,res) -> id rows; ids must be equal wherever the reference contained the point and was stable under 1e-9 deg perturbation, "
+      "centres/corners within 1e-9 deg.",
+      "Lean 4 proof of table identity (decide +kernel per generated item) + frozen golden-table replay + bit-exact model/impl correspondence",
+      "DESIGN.md section 6 C06",
+      "The golden table was produced by a scratch crate linked against a worktree of the pinned commit d731376 (deleted afterwards).")
